@@ -38,6 +38,26 @@ META = {
                 text="differential testing of every fastlog field appender against the standard library renderers: exhaustive over all uint16/uint8 values, every byte in every MAC position, all 256 IPv6 zero-group layouts x 5 group shapes (net.IP and netip.Addr), rapid-drawn multi-field lines through ToString and Write, over-long arrays after prefixes of every length, and String() of every valid view / table entry",
                 note="array framing (\"[a, b,]\") is taken from the code, the statement only fixes element texts and brackets; lines whose reference text exceeds the 2048-byte buffer are outside the statement (documented precondition) except for the three array appenders",
                 tech="property-based differential testing against stdlib renderers (rapid) + exhaustive value-space enumeration"),
+    "C07": dict(level="exploration",
+                text="every exported send function is called with generated arguments on 4 NIC configurations, and the frames emitted along host-tracking histories (purge probes) and DHCP histories (OFFER/ACK/NAK, forced DECLINE/RELEASE, attack DISCOVERs) are captured on the session connection; each frame is judged by strict independent decoders: Ethernet source = host MAC, length consistency at every layer, IPv4/ICMP/ICMPv6(+pseudo-header) checksums, NDP type/code/hop limit/option list, RFC 2464 multicast MAC, ARP header, DHCP cookie/End/300-byte minimum, DNS via dnsmessage, and compared with the call's arguments",
+                note="trusts the ref decoders; a caller-supplied (MAC, multicast IP) pair is sent as given (DESIGN.md 23.3); IPv4 multicast uses the broadcast MAC by design; the frames of the ARP/ICMPv6 spoof loops are judged by the same decoder inside C13/C14",
+                tech="property-based testing (rapid) of send paths against independent strict decoders; monitors on generated stateful histories"),
+    "C08": dict(level="exploration",
+                text="protocol-aware frame generators (ARP, DHCPv4, ICMPv4 with embedded datagrams, ICMPv6/NDP option lists, DNS, mDNS/LLMNR with every record type in every section, NBNS, SSDP, 802.3) closed under truncation at every offset, count/length/pointer corruption and byte mutation, dispatched by PayloadID through Parse -> Process* -> Notify exactly as the examples do, plus raw bytes into the exported payload decoders behind their IsValid; every case is journalled before it runs and a watchdog turns a handler that does not return within 20 s into a violation with a replay file; thorough adds native coverage-guided fuzzing",
+                note="termination is judged by a 20 s budget against a nominal cost below 1 ms; absence of panics/hangs is only shown for the generated cases",
+                tech="property-based testing (rapid) with protocol-aware generators + exhaustive truncation sweeps + native go fuzzing; oracle = returns without panic within the watchdog budget"),
+    "C11": dict(level="exploration",
+                text="model-based testing of the DHCP server against a wire-level ledger that only knows what the replies said: every message sequence to depth 4/5 over a 12-symbol alphabet for two clients on a 14-address pool (exhaustive), rapid histories of 5..80 messages (all request kinds, 11 requested-address classes, 4 client identities two of which share a chaddr, spoofed client-ids, capture toggles, +1min/+5h ticks, foreign traffic) on three prefix configurations and three modes, and a pool-exhaustion sub-check",
+                note="a client that sends DISCOVER is in INIT state and no longer holds its address (DESIGN.md C11); RELEASE is treated as freeing although the server keeps the binding - both choices make the oracle accept more; lease expiry is driven through MinuteTicker(now+5h), other time thresholds of the handler are not virtualised",
+                tech="model-based stateful property testing (rapid op lists + interpreter + ledger oracle) + bounded-exhaustive sequence enumeration"),
+    "C12": dict(level="exploration",
+                text="every OFFER/ACK/NAK along the C11 histories (all three modes, three home/netfilter prefix pairs, exhaustive depth 4/5 over a 12-symbol alphabet with capture toggles and ticks) is decoded by the reference decoder and checked against the transaction: op/xid/chaddr echo, yiaddr inside the subnet selected by the capture state at that moment, mask before router, router, DNS, server id, lease time, ACK only of the offer of this transaction or the client's lease, never for must-not-ACK requests",
+                note="NAK or silence are both accepted for requests that must not be acknowledged; an offer that a tick / NAK / DECLINE may have invalidated may still be acknowledged (lenient, counted)",
+                tech="model-based stateful property testing (rapid) with a per-reply conformance oracle + bounded-exhaustive sequence enumeration"),
+    "C17": dict(level="exploration",
+                text="DNS/mDNS/NBNS messages are serialised by an independent builder (suffix compression and pointer chains, every record type, every section) and the handler's view - ProcessDNS result and DNSFind, ProcessMDNS entry lists, ProcessNBNS name - is compared with the generated structure (and cross-read with dnsmessage); five crafted malformation classes must be rejected without leaving a table entry; NameEntry.Merge and Host.Update*Name are checked against the no-erasure / modified-flag / idempotence laws on generated entries and update sequences",
+                note="messages are limited to one Ethernet frame; PTR owners are in-addr.arpa names; for mDNS the library's own parser is dnsmessage, so the oracle there is the generated structure, never dnsmessage; Type/Expire are not attributes for the modified flag",
+                tech="property-based differential testing against an independent DNS builder/decoder (rapid) + algebraic law checking"),
     "C15": dict(level="exploration",
                 text="generated-input search against an independent RFC 1071 implementation: exhaustive for lengths 0..3, every single-word perturbation of carriers of every length, biased random strings, metamorphic split/insert relations, and IPv4 headers completed by the library verified by the reference",
                 note="trusts ref.Checksum (15 lines, stdlib only); inputs up to an Ethernet frame (1522 bytes)",
